@@ -28,6 +28,29 @@ CLAIMED = {
 NA = {
 }
 
+CLAIMED["C01"] = dict(
+  technique="TLA+ model of solve()/_terminate/krylov() with SciPy solver "
+            "skeletons (Solve.tla) checked exhaustively by TLC + TLC trace "
+            "validation of recorded emg3d.solve calls (TraceSolve.tla) with "
+            "residuals from an independently assembled operator",
+  text="TLC checks P1-P8 (exit 0 => residual below tol for the field the "
+       "caller ends up with, PEC, dtype, reported figures describe that "
+       "field, zero source => zero field, failure always reported, return "
+       "shape) on every path of solve() for all mode/solver/field/source "
+       "combinations, and must find the violation when a named deviation is "
+       "switched on.  Each recorded real solve (420 quick / 6000 thorough "
+       "over cycles x solvers x patterns x tol x maxit x supplied/fresh x "
+       "zero source x anisotropy x mu_r/eps_r x Laplace/frequency) is "
+       "validated by TLC against the model, with the properties evaluated "
+       "on observations computed by an operator assembled independently of "
+       "emg3d.core.",
+  note="Trusted: TLC, harness/fit.py (cross-checked against emg3d to 1e-13 "
+       "and, under C02, against the TLA+ reference), SciPy's solvers as the "
+       "environment.  Runs within rounding slack of a decision threshold "
+       "are skipped (counted).  Grids up to 16^3.",
+  ref="DESIGN.md section 5 (C01)", engine="tlc-solve")
+
+
 PLANNED = ["C01", "C02", "C03", "C04", "C09", "C10", "C11", "C12", "C13",
            "C15", "C17", "C18", "C20"]
 NA_FIXED = {
@@ -50,6 +73,8 @@ NA_FIXED = {
 }
 
 ENGINES = [
+ dict(name="tlc-solve", path="spec/Solve.tla", serves_properties=["C01"],
+      kind_free_text="TLA+ spec + TLC exhaustive + TLC trace validation"),
  dict(name="tlc-mgcycle", path="spec/MGCycle.tla",
       serves_properties=["C05"],
       kind_free_text="TLA+ spec + TLC exhaustive + TLC trace validation"),
